@@ -351,6 +351,29 @@ class Engine:
         return any(t and t <= role_objs for t in tokens)
 
     # --------------------------------------------------------------- dataflow
+    def reaching_defs(self, func, name, node):
+        """Value expressions of the assignments `name = <expr>` that reach CFG node *node* (flow-sensitive, normal edges only);
+        None in the list stands for "no assignment on some path" (parameter / unbound)."""
+        g = self.cfg(func)
+        out, seen, todo = [], set(), [p for p, l in node.pred if l != "exc"]
+        while todo:
+            n = todo.pop()
+            if n.id in seen:
+                continue
+            seen.add(n.id)
+            st = n.ast
+            if n.kind == "stmt" and isinstance(st, ast.Assign) and any(isinstance(t_, ast.Name) and t_.id == name for t_ in st.targets):
+                out.append(st.value)
+                continue
+            if n.kind == "stmt" and isinstance(st, (ast.AugAssign, ast.AnnAssign)) and isinstance(st.target, ast.Name) and st.target.id == name:
+                out.append(st)
+                continue
+            if n is g.entry:
+                out.append(None)
+                continue
+            todo += [p for p, l in n.pred if l != "exc"]
+        return out
+
     def local_defs(self, func, name):
         """Value expressions assigned to local *name* in func (flow-insensitive)."""
         out = []
